@@ -41,6 +41,25 @@ theorem order_independent (seed : Inst) (o₁ o₂ : List Comp)
     · rw [(run_view_out w inG ss seed o₁ c hc).2.2,
           (run_view_out w inG ss seed o₂ c (fun m => hc ((hm c).mpr m))).2.2]
 
+/-- equal per-cause exception lists give equal exception logs as multisets -/
+theorem excLog_perm_of_excOf (b₁ b₂ : Broker) (h : ∀ c, excOf b₁ c = excOf b₂ c) :
+    b₁.excLog.Perm b₂.excLog := by
+  rw [List.perm_iff_count]
+  intro e
+  have hc : ∀ b : Broker, List.count e b.excLog = List.count e (excOf b e.src) := by
+    intro b
+    unfold excOf
+    rw [List.count_filter (by simp)]
+  rw [hc b₁, hc b₂, h e.src]
+
+/-- …in particular the recorded failures are the same multiset for every two valid orders -/
+theorem order_independent_excLog (seed : Inst) (o₁ o₂ : List Comp)
+    (h₁ : Valid w inG seed o₁) (h₂ : Valid w inG seed o₂)
+    (hm : ∀ c, c ∈ evald inG o₁ ↔ c ∈ evald inG o₂) :
+    (runComponents w inG ss o₁ (Broker.seeded seed)).excLog.Perm
+      (runComponents w inG ss o₂ (Broker.seeded seed)).excLog :=
+  excLog_perm_of_excOf _ _ (order_independent w inG ss seed o₁ o₂ h₁ h₂ hm).2.2
+
 /-- the graph lists the declared dependencies of its keys, nothing depends on itself, and ignored
 keys are stable (the registration invariants `get_dependency_graph` / `COMPONENTS` establish) -/
 structure GraphOk (seed : Inst) (g : Graph) : Prop where
